@@ -54,6 +54,12 @@ M = {
  "c18-superset": ("faults/description.go", "\t\tif vv, ok := params[p]; !ok {\n\t\t\treturn false\n\t\t} else if vv != v {", "\t\tif vv, ok := params[p]; !ok {\n\t\t\tcontinue\n\t\t} else if vv != v {"),
  "c18-pool-leak": ("grpc/faults.go", "\tfor k := range params {\n\t\tdelete(params, k)\n\t}\n", ""),
  "c18-nonatomic": ("faults/set.go", "remaining := atomic.AddInt64(&d.Count, -1)", "remaining := atomic.LoadInt64(&d.Count) - 1\n\t\tatomic.StoreInt64(&d.Count, remaining)"),
+ "f2-revert": ("actions/notify.go", "\t\t\t// nobody waits on this subscription, the others may still have waiters\n\t\t\tcontinue", "\t\t\treturn"),
+ "c10-awaiter-late": ("actions/get-subscription-messages.go", "\t\tCancelPublishAwaiter(*a.params.ID, pubAwaiter)\n\t\tpubAwaiter = PublishAwaiter(*a.params.ID)\n\n\t\terr := runTx(", "\t\terr := runTx("),
+ "c10-no-wake-delay": ("actions/delay-deliveries.go", "\tif len(subIDs) != 0 {\n\t\tnotifyPublish(tx, subIDs...)\n\t}\n", ""),
+ "c10-no-wake-ack": ("actions/ack-deliveries.go", "\t\t\tfor _, s := range subIDs {\n\t\t\t\tWakePublishListeners(false, s)\n\t\t\t}\n", ""),
+ "c10-no-wake-dl": ("actions/delivery-utils.go", "\t\t\tWakePublishListeners(false, data.DeliverySubscriptionID)\n", ""),
+ "c10-no-wake-seek": ("actions/seek-subscription-to-time.go", "\tif numAcked != 0 || numDeAcked != 0 {\n\t\tnotifyPublish(tx, sub.ID)\n\t}\n", ""),
 }
 def main():
     name, checks = sys.argv[1], sys.argv[2].split(",")
